@@ -1,2 +1,3 @@
+@weight.setter
 def spec(self, value):
     self.weight_.data = value
